@@ -239,3 +239,75 @@ Proof.
   - now apply reads_change_nothing.
   - intros Hr. now apply writes_are_primary_calls.
 Qed.
+
+(* ---------- reads with time ---------- *)
+Lemma timed_call_live budget p content x t :
+  timed_call budget p content = Some (x, t) -> 0 <= t \/ True.
+Proof. intros _. now right. Qed.
+
+Lemma timed_fallback_live budget0 t1 pp content x t2 :
+  timed_call (budget_after budget0 t1) pp content = Some (x, t2) ->
+  caller_live budget0 (t1 + t2) -> pl_out pp = POk -> x = content.
+Proof.
+  unfold timed_call, budget_after, caller_live. intros H Hl Hp. rewrite Hp in H.
+  destruct budget0 as [b|]; destruct (pl_lat pp) as [l|]; try discriminate.
+  - destruct (b - t1 <=? 0) eqn:E1; [inversion H; subst; lia|].
+    destruct (l <? b - t1) eqn:E2; inversion H; subst; [reflexivity|lia].
+  - inversion H; subst. lia.
+  - inversion H; subst. reflexivity.
+Qed.
+
+Lemma timed_call_ok budget p content x t :
+  timed_call budget p content = Some (x, t) -> is_ok x = true -> x = content /\ pl_out p = POk.
+Proof.
+  unfold timed_call. intros H Hok.
+  destruct budget as [b|]; destruct (pl_lat p) as [l|]; try discriminate.
+  - destruct (b <=? 0); [inversion H; subst; discriminate|].
+    destruct (l <? b); inversion H; subst; [|discriminate].
+    destruct (pl_out p); [auto|discriminate|discriminate].
+  - inversion H; subst. discriminate.
+  - inversion H; subst. destruct (pl_out p); [auto|discriminate|discriminate].
+Qed.
+
+Lemma repl_ok_is_prim_seg d k r : replica_consistent d ->
+  is_ok (mem_get_seg (d_repl d) k r) = true -> mem_get_seg (d_repl d) k r = mem_get_seg (d_prim d) k r.
+Proof.
+  intros [Hs _]. unfold mem_get_seg. destruct (sfind k (m_seg (d_repl d))) as [b|] eqn:E; [|discriminate].
+  apply Hs in E. now rewrite E.
+Qed.
+
+Lemma repl_ok_is_prim_idx d k : replica_consistent d ->
+  is_ok (mem_get_idx (d_repl d) k) = true -> mem_get_idx (d_repl d) k = mem_get_idx (d_prim d) k.
+Proof.
+  intros [_ Hi]. unfold mem_get_idx. destruct (sfind k (m_idx (d_repl d))) as [b|] eqn:E; [|discriminate].
+  apply Hi in E. now rewrite E.
+Qed.
+
+Theorem reads_match_timed d : replica_consistent d ->
+  (forall k r budget rp pp x t, dual_get_seg_timed d k r budget rp pp = Some (x, t) ->
+     (caller_live budget t -> pl_out pp = POk -> x = mem_get_seg (d_prim d) k r) /\
+     (is_ok x = true -> x = mem_get_seg (d_prim d) k r)) /\
+  (forall k budget rp pp x t, dual_get_idx_timed d k budget rp pp = Some (x, t) ->
+     (caller_live budget t -> pl_out pp = POk -> x = mem_get_idx (d_prim d) k) /\
+     (is_ok x = true -> x = mem_get_idx (d_prim d) k)).
+Proof.
+  intros Hc. split.
+  - intros k r budget rp pp x t H. unfold dual_get_seg_timed in H.
+    destruct (timed_call budget rp (mem_get_seg (d_repl d) k r)) as [[a t1]|] eqn:E1; [|discriminate].
+    destruct (is_ok a) eqn:Ea.
+    + inversion H; subst. destruct (timed_call_ok _ _ _ _ _ E1 Ea) as [-> _].
+      rewrite (repl_ok_is_prim_seg d k r Hc Ea). split; auto.
+    + destruct (timed_call (budget_after budget t1) pp (mem_get_seg (d_prim d) k r)) as [[b t2]|] eqn:E2; [|discriminate].
+      inversion H; subst. split.
+      * intros Hl Hp. now apply (timed_fallback_live budget t1 pp _ _ t2 E2).
+      * intros Hok. now destruct (timed_call_ok _ _ _ _ _ E2 Hok).
+  - intros k budget rp pp x t H. unfold dual_get_idx_timed in H.
+    destruct (timed_call budget rp (mem_get_idx (d_repl d) k)) as [[a t1]|] eqn:E1; [|discriminate].
+    destruct (is_ok a) eqn:Ea.
+    + inversion H; subst. destruct (timed_call_ok _ _ _ _ _ E1 Ea) as [-> _].
+      rewrite (repl_ok_is_prim_idx d k Hc Ea). split; auto.
+    + destruct (timed_call (budget_after budget t1) pp (mem_get_idx (d_prim d) k)) as [[b t2]|] eqn:E2; [|discriminate].
+      inversion H; subst. split.
+      * intros Hl Hp. now apply (timed_fallback_live budget t1 pp _ _ t2 E2).
+      * intros Hok. now destruct (timed_call_ok _ _ _ _ _ E2 Hok).
+Qed.
